@@ -8,7 +8,7 @@ import (
 )
 
 // letters of the single-dash alphabet: a, b flags; n increment; s string; i int; é string (multibyte, valued); ß flag (multibyte); z undeclared
-var c07Letters = []string{"a", "b", "n", "s", "i", "é", "ß", "z", "1", "l"}
+var c07Letters = []string{"a", "b", "n", "s", "i", "é", "ß", "z", "1", "l", " "} // the blank is no option name: it only ever is part of an attached value (SingleDash) or of an unknown name
 
 func defC07(mode int, late bool) *ph.Def {
 	return &ph.Def{Mode: mode, LateMode: late, Unknown: 2, Root: ph.CmdDef{Name: "prog",
@@ -25,6 +25,7 @@ func defC07(mode int, late bool) *ph.Def {
 			{Name: "1", Kind: ph.Bool},                  // a digit as option name: `-1` is an option, not a number
 			{Name: "io", Kind: ph.IntOpt, DefI: 4},      // optional numeric value
 			{Name: "fl", Kind: ph.FltS, Min: 1, Max: 2}, // numeric slice with room for a second value
+			{Name: "o", Kind: ph.StrOpt, DefS: "OD"},    // one-letter optional-value option: `--o v` takes v in every mode
 			{Name: "l", Kind: ph.StrS, Min: 1, Max: 1},  // string list: an attached `a,b` is one element however it is spelled
 		},
 		Cmds: []*ph.CmdDef{{Name: "c", Opts: []ph.OptDef{{Name: "d", Kind: ph.Bool}}}},
@@ -241,9 +242,9 @@ func init() {
 	register(&Check{
 		ID:        "C07",
 		QuickSecs: 300, ThoroSecs: 900,
-		Rule: "input-space exploration, metamorphic: every single-dash token -LETTERS[=v] with LETTERS a string of length 1..Ll over 10 letters (two flags, increment, string, int, a multibyte valued option, a multibyte flag, an undeclared letter, a digit that is a declared flag, a string list) and v in {none, x, 5, =y, `a b`, empty, `a,b`, a value with a line break} " +
+		Rule: "input-space exploration, metamorphic: every single-dash token -LETTERS[=v] with LETTERS a string of length 1..Ll over 11 letters (two flags, increment, string, int, a multibyte valued option, a multibyte flag, an undeclared letter, a digit that is a declared flag, a string list, a blank) and v in {none, x, 5, =y, `a b`, empty, `a,b`, a value with a line break} " +
 			"in 8 contexts (alone, followed by a value, followed by an option, after a positional, after a command, after a command and followed by a value, right behind an optional numeric option, right behind a numeric slice with room) x 3 modes x SetMode before/after the commands are declared; the complete outcome of Parse on the token is compared with Parse on its documented rewriting " +
-			"(restricted to the statement's preconditions in Bundling mode); plus every long-only argv of length <= 3 over 14 tokens (one-letter abbreviations of long names included) compared across the three modes; distinct_nontrivial = distinct (definition, argv) pairs compared",
+			"(restricted to the statement's preconditions in Bundling mode); plus every long-only argv of length <= 3 over 15 tokens (one-letter abbreviations of long names and a one-letter optional-value option included) compared across the three modes; distinct_nontrivial = distinct (definition, argv) pairs compared",
 		Assume: []string{"letters outside the alphabet and tokens longer than Ll are not covered"},
 		Run: func(c *RunCtx) {
 			ll := 4
@@ -253,7 +254,7 @@ func init() {
 			res := c.Res
 			attaches := []*string{nil, sp("x"), sp("5"), sp("=y"), sp("a b"), sp(""), sp("a,b"), sp("a\nb")}
 			res.Bounds = map[string]any{"Ll": ll, "letters": c07Letters, "contexts": c07Contexts}
-			longAlpha := []string{"--a", "--s=v", "--s", "v", "--long=x", "--lo=x", "--an", "--i=3", "--zz", "c", "--é=w", "--l=y", "--f", "--1"}
+			longAlpha := []string{"--a", "--s=v", "--s", "v", "--long=x", "--lo=x", "--an", "--i=3", "--zz", "c", "--é=w", "--l=y", "--f", "--1", "--o"}
 			units := len(c07Letters) + len(longAlpha)
 			for {
 				u := c.claim()
